@@ -12,6 +12,7 @@ import AGH.Lemmas.RewritesOrder
 import AGH.Lemmas.RewritesDns
 import AGH.Lemmas.RewritesMonitor
 import AGH.Lemmas.RewritesTable
+import AGH.Lemmas.RewritesChoice
 namespace AGH.C06
 open AGH AGH.Bytes
 
@@ -87,6 +88,18 @@ theorem C06_terminates (srt : Bytes → Sorter) (tbl : List Entry) (h : Bytes) (
       · cases h
       · exact h
 
+/-- The bound, sharpened: the number of CNAMEs followed is at most the number of
+CNAME entries in the table — a table with `k` CNAME entries costs at most `k + 1`
+calls of `findRewrites`, whatever cycles it contains. -/
+theorem C06_terminates_cname_bound (srt : Bytes → Sorter) (tbl : List Entry) (h : Bytes) (q : Nat) :
+    (processRun srt tbl h q).visited.length ≤ (tbl.filter (fun e => e.typ == .CNAME)).length := by
+  obtain ⟨_, hnd, hsrc⟩ := C06_terminates srt tbl h q
+  have := nodup_length_le (m := (tbl.filter (fun e => e.typ == .CNAME)).map (·.answer)) hnd (by
+    intro v hv
+    obtain ⟨e, he, hc, ha⟩ := hsrc v hv
+    exact List.mem_map.mpr ⟨e, List.mem_filter.mpr ⟨he, by simp [hc]⟩, ha⟩)
+  simpa using this
+
 /-! ## No address from outside the table -/
 
 /-- Every address in the result belongs to a table entry of the requested
@@ -102,6 +115,40 @@ theorem C06_ips_from_table (srt : Bytes → Sorter) (tbl : List Entry) (h : Byte
   · next hm =>
     rw [if_neg hm] at hip
     exact chase_ips srt tbl q h h [] [] ip hip
+
+/-- … and more precisely of one of the MOST SPECIFIC address-kind entries that
+bear on the query there (exact ones if any, else the longest wildcards) — for
+every table and tie-breaking, no tie-freeness assumed. -/
+theorem C06_ips_from_most_specific (srt : Bytes → Sorter) (tbl : List Entry) (h : Bytes) (q : Nat)
+    (ip : Bytes) (hip : ip ∈ (processRewritesWith srt tbl h q).ips) :
+    ∃ e ∈ Spec.mostSpecific (specAddrs tbl (processRun srt tbl h q).final q),
+      Spec.value e q = some ip := by
+  unfold processRewritesWith processRun at hip
+  unfold processRun
+  split
+  · next hm => rw [if_pos hm] at hip; cases hip
+  · next hm =>
+    rw [if_neg hm] at hip
+    exact chase_ips_most_specific srt tbl q h h [] [] ip hip
+
+/-! ## Wildcards and other query types -/
+
+/-- `*.s` does not cover the apex `s` itself … -/
+theorem C06_wildcard_not_apex (s : Bytes) : matchDomainWildcard s (42 :: 46 :: s) = false := by
+  unfold matchDomainWildcard hasSuffix
+  simp only [isWildcard, List.drop_succ_cons, List.drop_zero, Bool.true_and]
+  rw [Bool.eq_false_iff]
+  intro h
+  have := (List.isSuffixOf_iff_suffix.mp h).length_le
+  simp at this
+  omega
+
+/-- … and covers every name under it, at any depth. -/
+theorem C06_wildcard_covers_subdomains (p s : Bytes) :
+    matchDomainWildcard (p ++ 46 :: s) (42 :: 46 :: s) = true := by
+  unfold matchDomainWildcard hasSuffix
+  simp only [isWildcard, List.drop_succ_cons, List.drop_zero, Bool.true_and]
+  exact List.isSuffixOf_iff_suffix.mpr (List.suffix_append p (46 :: s))
 
 /-! ## Precedence (match + sort + cut), for every sorted permutation -/
 
@@ -283,6 +330,26 @@ theorem C06_nodata (srt : Bytes → Sorter) (tbl : List Entry) (h : Bytes) (q : 
   rw [hres]
   exact ⟨rfl, rfl⟩
 
+/-- Query types other than A and AAAA (HTTPS, MX, TXT, ANY, …): a covered name
+without a covering CNAME gets the empty successful answer, locally. -/
+theorem C06_other_qtype_empty (srt : Bytes → Sorter) (tbl : List Entry) (h : Bytes) (q : Nat)
+    (hq : q ≠ qA ∧ q ≠ qAAAA)
+    (hcov : ∃ e ∈ tbl, matchesHost e h = true)
+    (hno : ∀ e ∈ tbl, matchesHost e h = true → e.typ ≠ .CNAME) :
+    processRewritesWith srt tbl h q = ⟨true, [], []⟩ ∧
+    dispatch (processRewritesWith srt tbl h q) = .answer [] [] := by
+  apply C06_nodata srt tbl h q hcov
+  intro e he hm
+  have hne := hno e he hm
+  have hcode : e.typ.code ≠ q := by
+    intro hc
+    rcases code_eq_iff_family hne q hc with h' | h'
+    · exact hq.1 h'
+    · exact hq.2 h'
+  refine ⟨hne, ?_, ?_⟩
+  · simp [Spec.value, hcode]
+  · simp [Spec.passesFamily, hcode]
+
 /-- CNAME to upstream: when every most specific CNAME entry for the queried
 name points at the same name `t` (no exception) and the table does not cover
 `t`, the result carries the canonical name `t` and no address; dnsforward then
@@ -373,6 +440,151 @@ theorem C06_history_meets_spec (srt : Bytes → Sorter) (rs : List Raw) (ops : L
   · rw [ht]
     exact C06_model_meets_spec srt _ h q
 
+/-! ## The rewrite HTTP API as a state machine over the table -/
+
+/-- add: the normalized entry is appended; nothing is validated or de-duplicated
+(adding the same pair twice keeps both). -/
+theorem C06_api_add_appends (tbl : List Entry) (r : Raw) :
+    stepTable tbl (.add r) = (tbl ++ [normalize r], true) := rfl
+
+/-- delete: exactly the entries whose stored pair is the given one go — all
+duplicates of it, nothing else — and the others keep their order. -/
+theorem C06_api_delete_exact (tbl : List Entry) (d a : Bytes) :
+    (∀ e, e ∈ (stepTable tbl (.del d a)).1 ↔ e ∈ tbl ∧ sameKey d a e = false) ∧
+    (stepTable tbl (.del d a)).1.Sublist tbl ∧
+    ((stepTable tbl (.del d a)).1 ++ tbl.filter (sameKey d a)).Perm tbl := by
+  refine ⟨?_, ?_, ?_⟩
+  · intro e
+    simp [stepTable, List.mem_filter]
+  · exact List.filter_sublist
+  · simp only [stepTable]
+    have := List.filter_append_perm (sameKey d a) tbl
+    exact (List.perm_append_comm).trans this
+
+/-- update: the FIRST entry with the target pair is replaced in place by the
+normalized new entry (position kept, further duplicates of the target stay);
+without such an entry the request fails and the table is untouched. -/
+theorem C06_api_update_replaces_first (tbl : List Entry) (td ta : Bytes) (u : Raw) :
+    (∃ pre e post, tbl = pre ++ e :: post ∧ sameKey td ta e = true ∧
+        (∀ x ∈ pre, sameKey td ta x = false) ∧
+        stepTable tbl (.upd td ta u) = (pre ++ normalize u :: post, true)) ∨
+    ((∀ x ∈ tbl, sameKey td ta x = false) ∧ stepTable tbl (.upd td ta u) = (tbl, false)) := by
+  rcases replaceFirst_spec (sameKey td ta) (normalize u) tbl with
+    ⟨pre, e, post, h1, h2, h3, h4⟩ | ⟨h1, h2⟩
+  · left; exact ⟨pre, e, post, h1, h2, h3, by simp [stepTable, h4]⟩
+  · right; exact ⟨h1, by simp [stepTable, h2]⟩
+
+/-- update = delete + add, atomically, when the target occurs once: the same
+entries (as a multiset) as deleting the target and adding the new entry — but
+in one step and at the old position. -/
+theorem C06_api_update_is_delete_add (tbl : List Entry) (td ta : Bytes) (u : Raw)
+    (pre post : List Entry) (e : Entry) (htbl : tbl = pre ++ e :: post)
+    (he : sameKey td ta e = true)
+    (hpre : ∀ x ∈ pre, sameKey td ta x = false) (hpost : ∀ x ∈ post, sameKey td ta x = false) :
+    stepTable tbl (.upd td ta u) = (pre ++ normalize u :: post, true) ∧
+    (stepTable tbl (.upd td ta u)).1.Perm
+      (stepTable (stepTable tbl (.del td ta)).1 (.add u)).1 := by
+  have hupd : stepTable tbl (.upd td ta u) = (pre ++ normalize u :: post, true) := by
+    rcases C06_api_update_replaces_first tbl td ta u with ⟨pre', e', post', h1, h2, h3, h4⟩ | ⟨h1, _⟩
+    · -- the first match is `e`
+      have : pre' = pre ∧ e' = e ∧ post' = post := by
+        have hh := htbl.symm.trans h1
+        clear h4 h1 htbl
+        induction pre generalizing pre' with
+        | nil =>
+          cases pre' with
+          | nil => simp at hh; exact ⟨rfl, hh.1.symm, hh.2.symm⟩
+          | cons y ys =>
+            simp at hh
+            have := h3 y (by simp)
+            rw [← hh.1, he] at this; cases this
+        | cons x xs ih =>
+          cases pre' with
+          | nil =>
+            simp at hh
+            have := hpre x (by simp)
+            rw [hh.1, h2] at this; cases this
+          | cons y ys =>
+            simp at hh
+            have := ih (fun z hz => hpre z (List.mem_cons_of_mem _ hz)) ys
+              (fun z hz => h3 z (List.mem_cons_of_mem _ hz)) (by simp [hh.2])
+            exact ⟨by rw [hh.1, this.1], this.2⟩
+      obtain ⟨rfl, rfl, rfl⟩ := this
+      exact h4
+    · have := h1 e (by rw [htbl]; simp)
+      rw [he] at this; cases this
+  refine ⟨hupd, ?_⟩
+  rw [hupd]
+  have hdel : (stepTable tbl (.del td ta)).1 = pre ++ post := by
+    simp only [stepTable, htbl, List.filter_append, List.filter_cons, he, Bool.not_true,
+      Bool.false_eq_true, if_false]
+    have f1 : pre.filter (fun e => !sameKey td ta e) = pre :=
+      List.filter_eq_self.mpr (fun x hx => by simp [hpre x hx])
+    have f2 : post.filter (fun e => !sameKey td ta e) = post :=
+      List.filter_eq_self.mpr (fun x hx => by simp [hpost x hx])
+    rw [f1, f2]
+  rw [hdel]
+  simp only [stepTable]
+  have : (pre ++ normalize u :: post).Perm (normalize u :: (pre ++ post)) := List.perm_middle
+  exact this.trans ((List.perm_append_comm (l₁ := [normalize u]) (l₂ := pre ++ post)))
+
+/-- A rejected request (malformed JSON) changes nothing. -/
+theorem C06_api_rejected_changes_nothing (tbl : List Entry) : stepTable tbl .bad = (tbl, false) := rfl
+
+/-- Persistence: after any history on a filter created from any configured
+list, saving the configuration and creating a new filter from what was saved
+(`domain`/`answer` only) gives the same table, derived fields included. -/
+theorem C06_api_reload_same_table (rs : List Raw) (ops : List TableOp) :
+    stepTable (runTable (prepare rs) ops) .reload = (runTable (prepare rs) ops, true) := by
+  rw [runTable_prepare]
+  simp only [stepTable]
+  rw [reload_prepare]
+
+/-- `GET /control/rewrite/list` shows the configured list after any history. -/
+theorem C06_api_list_shows_configured (rs : List Raw) (ops : List TableOp) :
+    Spec.listOK (ops.foldl Spec.editRaws rs) (listTable (runTable (prepare rs) ops)) = true := by
+  rw [runTable_prepare]
+  simp [Spec.listOK, listTable]
+
+/-! ## The rewrite stage in front of the rule engines -/
+
+/-- A rewritten query never reaches the rule engines: the verdict does not
+depend on the loaded rules. -/
+theorem C06_rewrite_short_circuits (srt : Bytes → Sorter) (tbl : List Entry) (rules : List Bytes)
+    (h : Bytes) (q : Nat) (hr : (checkHostWith srt tbl h q).rewritten = true) :
+    checkHostFull srt tbl rules h q = .rewritten (checkHostWith srt tbl h q) := by
+  simp [checkHostFull, hr]
+
+/-- A query the rewrites pass through (exception, or name not in the table) is
+judged by the rule engines. -/
+theorem C06_pass_through_reaches_filters (srt : Bytes → Sorter) (tbl : List Entry)
+    (rules : List Bytes) (h : Bytes) (q : Nat) (hne : h ≠ [])
+    (hr : (checkHostWith srt tbl h q).rewritten = false) :
+    checkHostFull srt tbl rules h q =
+      if blockedBy rules (lower h) = true then .blocked else .notFound := by
+  simp [checkHostFull, hr, hne]
+
+/-- The full `CheckHost` verdict is acceptable for every configured table. -/
+theorem C06_verdict_meets_spec (srt : Bytes → Sorter) (rs : List Raw) (rules : List Bytes)
+    (h : Bytes) (q : Nat) :
+    Spec.verdictOK (prepare rs) rules h q (checkHostFull srt (prepare rs) rules h q) = true := by
+  by_cases hne : h = []
+  · subst hne
+    simp [checkHostFull, checkHostWith, Out.empty, Spec.verdictOK]
+  · have hspec := C06_checkhost_meets_spec srt rs h q hne
+    have hsame : ∀ o, Spec.specOK (prepare rs) (lower h) q o = Spec.specOK (prepare rs) h q o := by
+      intro o; simp [Spec.specOK, lower_idem]
+    cases hr : (checkHostWith srt (prepare rs) h q).rewritten
+    · have hemp := checkHost_not_rewritten srt (prepare rs) h q hr
+      rw [hemp] at hspec
+      unfold checkHostFull
+      simp only [hr, Bool.false_eq_true, if_false]
+      by_cases hb : blockedBy rules (lower h) = true
+      · simp [hne, hb, Spec.verdictOK, hsame, hspec]
+      · simp [hne, hb, Spec.verdictOK, hsame, hspec]
+    · unfold checkHostFull
+      simp [hr, Spec.verdictOK, hsame, hspec]
+
 /-! ## Order of entries and tie-breaking of the sort
 
 Full statement (DESIGN: `C06_order_independent`, `C06_sort_agnostic`):
@@ -420,6 +632,19 @@ theorem C06_counterexample_cname_tie :
   have := (h2 rfl).1
   revert this
   decide +kernel
+
+/-- Unconditionally: the SET of results the code can produce (over all
+tie-breakings of the sort) does not depend on the order of the entries — for
+whatever the sort does on one order, some sort yields exactly the same run
+(result, finally resolved name, followed names) on any other order.  What is
+unspecified is exactly the choice among equally specific CNAME entries / equally
+specific wildcard address entries, and the order of the exact addresses. -/
+theorem C06_outcome_set_order_independent (s₁ : Bytes → Sorter) (t₁ t₂ : List Entry) (h : Bytes)
+    (q : Nat) (hp : t₁.Perm t₂) :
+    ∃ s₂ : Bytes → Sorter, processRun s₂ t₂ h q = processRun s₁ t₁ h q ∧
+      processRewritesWith s₂ t₂ h q = processRewritesWith s₁ t₁ h q := by
+  obtain ⟨s₂, hs⟩ := outcome_set_perm s₁ t₁ t₂ h q hp
+  exact ⟨s₂, hs, by unfold processRewritesWith; rw [hs]⟩
 
 /-- On a tie-free table the result (decision, canonical name, addresses up to
 order) depends neither on the order of the entries nor on how the sort breaks
